@@ -10,4 +10,6 @@ _tmcmc.generate(core.REPO, core.LEAN / "Pun/Gen/TmcmcGen.lean")
 from pv.translator import ks as _ks
 _ks.generate(core.REPO, core.LEAN / "Pun/Gen/KSGen.lean")
 hedge.generate(core.REPO, core.LEAN / "Pun/Gen/HedgeGen.lean")
+from pv.translator import grid as _grid
+_grid.generate(core.REPO, core.LEAN / "Pun/Gen/GridGen.lean")
 print("generated")
